@@ -2,6 +2,7 @@ import BiotiteModel.Proofs.C12Fasta
 import BiotiteModel.Proofs.C12Fastq
 import BiotiteModel.Proofs.C12Loc
 import BiotiteModel.Proofs.C12Gff
+import BiotiteModel.Proofs.C12Gb
 import BiotiteModel.Gen.C12
 /-!
 # C12 — property theorems (sequence file formats return what was written)
@@ -146,19 +147,27 @@ theorem C12_gff_quote (s : Str) :
   exact ⟨unquoteB_quote _ hs.1 s, quoteB_no_delim _ hs _ (gff_utf8_lt s), quoteB_space _ hsp _ (gff_utf8_lt s)⟩
 
 /-- **GFF3 line round trip**: whatever `_create_line` accepts is parsed back by `__getitem__` to
-the same nine columns (text columns stripped, as UTF-8 bytes), for all strings in seqid / source /
-type / attribute keys and values — provided attribute keys are distinct and the last attribute
-value does not end in whitespace (`GffLastOk`: the reader strips the whole line, known finding). -/
+the same nine columns (text columns stripped, as UTF-8 bytes), for **all** strings in seqid /
+source / type / attribute keys and values, provided attribute keys are distinct (a `dict`).
+No whitespace hypothesis: the repaired writer (`_quote_value`) never ends a line in a blank. -/
 theorem C12_gff_line (e : GffEntry Str) (line : Str) (hline : createLine Gen.C12.notQuoted e = .ok line)
     (hscore : ∀ t, e.score = some t → t ≠ ['.'] ∧ t ≠ [] ∧ ∀ c ∈ t, c ≠ tab ∧ isSpace c = false)
-    (hkeys : (e.attrs.map (fun kv => utf8 kv.1)).Nodup) (hlast : GffLastOk e) :
+    (hkeys : (e.attrs.map (fun kv => utf8 kv.1)).Nodup) :
     parseLine line = .ok e.bytes :=
-  gff_line_roundtrip_of_entry _ C12_gen_not_quoted.1 readInt_showInt showInt_chars showInt_ne_nil
-    e line hline hscore hkeys hlast
+  gff_line_roundtrip_full _ C12_gen_not_quoted.1 C12_gen_not_quoted.2.1 readInt_showInt showInt_chars
+    showInt_ne_nil e line hline hscore hkeys
+
+/-- attribute values (`_quote_value`): invertible, delimiter-free, and never ending in whitespace. -/
+theorem C12_gff_quote_value (s : Str) :
+    unquoteB (quoteV Gen.C12.notQuoted s) = utf8 s ∧
+    (∀ c ∈ quoteV Gen.C12.notQuoted s, c.toNat < 128 ∧ c.toNat ∉ gffDelims) ∧
+    (∀ c, (quoteV Gen.C12.notQuoted s).getLast? = some c → isSpace c = false) :=
+  ⟨unquoteB_quoteV _ C12_gen_not_quoted.1.1 s, quoteV_no_delim _ C12_gen_not_quoted.1 s,
+   quoteV_last _ C12_gen_not_quoted.2.1 s⟩
 
 /-- **Edit consistency (GFF3)**: `append`, `insert`, `__setitem__`, `__delitem__`,
 `append_directive` keep `(entries, directives, has_fasta) = _index_entries(lines)`; the lines
-`_create_line` produces qualify as entry lines unless the seqid starts with `#` (known finding). -/
+`_create_line` produces always qualify as entry lines (`C12_gff_created_line_is_entry`). -/
 theorem C12_edit_consistent_gff (g g' : Gff) (i : Int) (line d text : Str)
     (hinv : g.idx = gffIndex g.lines) (hl : IsEntryLine line) :
     (gffAppend g line = .ok g' → g'.idx = gffIndex g'.lines) ∧
@@ -171,10 +180,40 @@ theorem C12_edit_consistent_gff (g g' : Gff) (i : Int) (line d text : Str)
    fun h hnf => gff_set_inv g g' i line hinv hnf hl h, gff_del_inv g g' i,
    fun h hnf ht => gff_append_directive_inv g g' d text hinv hnf ht h⟩
 
+/-- every line `_create_line` returns is an entry line for `_index_entries` (a seqid starting
+with `#` or `>` is rejected), so the hypothesis `IsEntryLine` above is met by the real edits. -/
 theorem C12_gff_created_line_is_entry (e : GffEntry Str) (line : Str)
-    (h : createLine Gen.C12.notQuoted e = .ok line) (hhash : (strip e.seqid).head? ≠ some '#') :
-    IsEntryLine line :=
-  createLine_isEntryLine _ C12_gen_not_quoted.1 e line h hhash
+    (h : createLine Gen.C12.notQuoted e = .ok line) : IsEntryLine line :=
+  createLine_isEntryLine _ C12_gen_not_quoted.1 e line h
+
+
+/-! ## GenBankFile as a list of fields -/
+
+/-- **Edit consistency (GenBank).**  `GbWF g`: the lines are field blocks (header line in column 0,
+continuation lines empty or indented) closed by `//`, and `_field_pos` holds their running
+positions.  The empty file and every text of that shape read from disk are well-formed; a
+well-formed object has `_field_pos = _find_field_indices(lines)`; and `__setitem__`, `insert`,
+`append`, `__delitem__`, `set_field` — which shift positions instead of re-indexing — keep it
+well-formed, for names that fit the 12-column name field (`GbNameOk`) and FEATURES/ORIGIN content
+made of continuation lines (`GbContentOk`).  Hence index = reindex(lines) after any edit sequence. -/
+theorem C12_edit_consistent_genbank (g g' : Gb) (i : Int) (name : Str) (content : List Str)
+    (subs : List (Str × List Str)) (hw : GbWF g) :
+    g.pos = gbFind g.lines ∧
+    (gbDel g i = .ok g' → GbWF g') ∧
+    (GbNameOk name → GbContentOk name content →
+      (gbSet g i name content subs = .ok g' → GbWF g') ∧
+      (gbInsert g i name content subs = .ok g' → GbWF g') ∧
+      (gbAppend g name content subs = .ok g' → GbWF g')) ∧
+    (GbNameOk (upper name) → GbContentOk (upper name) content →
+      gbSetField g name content subs = .ok g' → GbWF g') :=
+  ⟨gbWF_inv g hw, gb_del_wf g g' i hw,
+   fun hn hc => ⟨gb_set_wf g g' i name content subs hw hn hc, gb_insert_wf g g' i name content subs hw hn hc,
+                 gb_append_wf g g' name content subs hw hn hc⟩,
+   fun hn hc => gb_setField_wf g g' name content subs hw hn hc⟩
+
+theorem C12_genbank_wf_start :
+    GbWF Gb.empty ∧ ∀ bs : List GbBlock, (∀ b ∈ bs, GbBlockOk b) → GbWF (gbRead (gbFlat bs ++ [gbTerm])) :=
+  ⟨gbWF_empty, gbWF_read⟩
 
 /-! ## Obligations on the tables regenerated from the source on every run -/
 
@@ -216,5 +255,16 @@ example : quote Gen.C12.notQuoted "a%41b;c=d\te".toList = "a%2541b%3Bc%3Dd%09e".
 
 example : (createLine Gen.C12.notQuoted ⟨"chr 1".toList, "a;b".toList, "t%41".toList, 1, 99, none, some true, some 0,
     [("ID".toList, "x=1,2".toList)]⟩).map String.ofList = .ok "chr 1\ta%3Bb\tt%2541\t1\t99\t.\t-\t0\tID=x%3D1%2C2" := by decide
+
+example : quoteV Gen.C12.notQuoted "x  ".toList = "x %20".toList := by decide
+
+example : GbNameOk " Source ".toList ∧ GbContentOk "ORIGIN".toList ["        1 acgt".toList] := by
+  refine ⟨by unfold GbNameOk; decide, ?_⟩
+  intro _ c hc
+  simp only [List.mem_singleton] at hc
+  subst hc; right; decide
+
+example : (gbAppend Gb.empty "locus".toList ["x".toList] []).map (fun g => (g.lines.map String.ofList, g.pos.map (fun p => (p.1, p.2.1, String.ofList p.2.2)))) =
+    .ok (["LOCUS       x", "//"], [(0, 1, "LOCUS")]) := by decide
 
 end BiotiteModel.C12
